@@ -8,6 +8,7 @@ package main
 import (
 	"context"
 	"crypto/ed25519"
+	"errors"
 	"fmt"
 	"os"
 	"runtime"
@@ -25,6 +26,7 @@ import (
 	rbits "verifharness/ref/bits"
 	rboc "verifharness/ref/boc"
 	"verifharness/ref/cell"
+	rdict "verifharness/ref/dict"
 	rwallet "verifharness/ref/wallet"
 )
 
@@ -77,6 +79,42 @@ type addrCase struct {
 	wc   int
 	sub  *uint32
 	net  *int32
+	idx  int // position in the case list: selects the form in which the options are passed
+}
+
+// buildOpts passes the same option VALUES in different forms. The statement speaks about the
+// requested workchain / sub-wallet id / network id, not about the order in which they are named:
+//
+//	form 0: WithWorkchain first, then sub-wallet, then network (the order GenerateWalletAddress uses)
+//	form 1: a random order
+//	form 2: workchain 0 requested by not naming a workchain at all (random order of the rest)
+//	form 3: every option named twice with the same value, random order
+func buildOpts(wc int, sub *uint32, net *int32, form int, r *mon.Rng) ([]twallet.Option, string) {
+	var opts []twallet.Option
+	name := []string{"canonical-order", "shuffled", "workchain-omitted", "repeated"}[form]
+	if !(form == 2 && wc == 0) {
+		opts = append(opts, twallet.WithWorkchain(wc))
+	} else {
+		name = "workchain-omitted(wc=0)"
+	}
+	if sub != nil {
+		opts = append(opts, twallet.WithSubWalletID(*sub))
+	}
+	if net != nil {
+		opts = append(opts, twallet.WithNetworkGlobalID(*net))
+	}
+	if form == 3 {
+		opts = append(opts, opts...)
+	}
+	if form != 0 {
+		p := r.Perm(len(opts))
+		sh := make([]twallet.Option, len(opts))
+		for i, j := range p {
+			sh[i] = opts[j]
+		}
+		opts = sh
+	}
+	return opts, name
 }
 
 func (a addrCase) wit() map[string]any {
@@ -126,13 +164,9 @@ func checkAddress(a addrCase) {
 	}
 	refSI, _ := rwallet.InitialState(rp)
 
-	opts := []twallet.Option{twallet.WithWorkchain(a.wc)}
-	if a.sub != nil {
-		opts = append(opts, twallet.WithSubWalletID(*a.sub))
-	}
-	if a.net != nil {
-		opts = append(opts, twallet.WithNetworkGlobalID(*a.net))
-	}
+	opts, optForm := buildOpts(a.wc, a.sub, a.net, a.idx%4, R.Rng("opts", a.idx))
+	w["option_form"] = optForm
+	R.Seen("option_forms", optForm)
 	var a1, a2 ton.AccountID
 	var si tlb.StateInit
 	var si2 *tlb.StateInit
@@ -257,31 +291,47 @@ func checkAddress(a addrCase) {
 
 func sectionAddresses() {
 	nKeys := R.N(50, 400)
-	wcs := []int{0, -1, 1, 127}
+	// 0, -1: the two workchains of the network; the others are boundary values of the 8-bit
+	// workchain field of v5 data and of addr_std (and values next to them)
+	wcsAll := []int{0, -1, 1, 127}
+	wcsFew := []int{-128, -2, 2, 126}
+	// workchains that do not fit into 8 bits: only for the versions whose data does not hold the
+	// workchain (AccountID.Workchain is an int32); what a v5 wallet id is for them is not defined
+	wcsWide := []int{128, 255, 256, -129, 1 << 20, -(1 << 31)}
 	nets := []*int32{nil, optPtrI32(-239), optPtrI32(-3), optPtrI32(0), optPtrI32(1)}
 	var cases []addrCase
+	add := func(s verSpec, seed []byte, wc int, sub *uint32, net *int32) {
+		cases = append(cases, addrCase{spec: s, seed: seed, wc: wc, sub: sub, net: net, idx: len(cases)})
+	}
 	for ki := 0; ki < nKeys; ki++ {
 		rng := R.Rng("key", ki)
 		seed := rng.Bytes(32)
 		subs := []*uint32{nil, optPtrU32(0), optPtrU32(1), optPtrU32(rwallet.DefaultSubWalletBase), optPtrU32(1<<32 - 1), optPtrU32(uint32(rng.Uint64()))}
 		for _, s := range specs {
+			wcs := wcsAll
+			if ki%5 == 0 {
+				wcs = append(append([]int(nil), wcsAll...), wcsFew...)
+				if !rwallet.HasNetworkID(s.r) {
+					wcs = append(wcs, wcsWide...)
+				}
+			}
 			for _, wc := range wcs {
 				switch {
 				case !rwallet.HasSubWallet(s.r):
-					cases = append(cases, addrCase{s, seed, wc, nil, nil})
+					add(s, seed, wc, nil, nil)
 					if rng.Chance(1, 4) { // options without meaning for the version must not matter
-						cases = append(cases, addrCase{s, seed, wc, mon.Pick(rng, subs), mon.Pick(rng, nets)})
+						add(s, seed, wc, mon.Pick(rng, subs), mon.Pick(rng, nets))
 					}
 				case s.r == rwallet.V5Beta:
 					for _, sub := range subs {
 						for _, net := range nets {
-							cases = append(cases, addrCase{s, seed, wc, sub, net})
+							add(s, seed, wc, sub, net)
 						}
 					}
 				case s.r == rwallet.V5R1:
 					for _, net := range nets {
-						cases = append(cases, addrCase{s, seed, wc, nil, net})
-						cases = append(cases, addrCase{s, seed, wc, optPtrU32(uint32(rng.Range(1, 0x7fff))), net})
+						add(s, seed, wc, nil, net)
+						add(s, seed, wc, optPtrU32(uint32(rng.Range(1, 0x7fff))), net)
 					}
 				default:
 					for _, sub := range subs {
@@ -289,7 +339,7 @@ func sectionAddresses() {
 						if rng.Chance(1, 4) {
 							net = mon.Pick(rng, nets)
 						}
-						cases = append(cases, addrCase{s, seed, wc, sub, net})
+						add(s, seed, wc, sub, net)
 					}
 				}
 			}
@@ -361,8 +411,9 @@ type chain struct {
 	sentAt   []time.Time
 	stateQ   []ton.AccountID
 	polls    []poll
-	script   func(n int) (uint32, error) // n = 1-based poll number
-	t0       time.Time
+	// n = 1-based poll number, sinceSend = time since the (last) message was handed to SendMessage
+	script func(n int, sinceSend time.Duration) (uint32, error)
+	t0     time.Time
 }
 
 func (c *chain) GetSeqno(ctx context.Context, a ton.AccountID) (uint32, error) {
@@ -371,8 +422,12 @@ func (c *chain) GetSeqno(ctx context.Context, a ton.AccountID) (uint32, error) {
 	n := len(c.polls) + 1
 	var v uint32
 	var err error
+	var since time.Duration
+	if len(c.sentAt) > 0 {
+		since = time.Since(c.sentAt[len(c.sentAt)-1])
+	}
 	if c.script != nil {
-		v, err = c.script(n)
+		v, err = c.script(n, since)
 	} else {
 		err = fmt.Errorf("scripted: unexpected GetSeqno")
 	}
@@ -388,13 +443,71 @@ func (c *chain) SendMessage(ctx context.Context, payload []byte) (uint32, error)
 }
 func (c *chain) GetAccountState(ctx context.Context, a ton.AccountID) (tlb.ShardAccount, error) {
 	c.mu.Lock()
+	defer c.mu.Unlock()
 	c.stateQ = append(c.stateQ, a)
-	c.mu.Unlock()
 	return c.state, c.stateErr
 }
+func (c *chain) setState(s tlb.ShardAccount, err error) {
+	c.mu.Lock()
+	c.state, c.stateErr = s, err
+	c.mu.Unlock()
+}
 
-// accountState builds what the chain reports for the wallet.
-func accountState(kind string, s verSpec, rp rwallet.Params, addr ton.AccountID, seqno uint32) (tlb.ShardAccount, error) {
+// richDataCell is the persistent data of a wallet that has been in use: the same fields as
+// rwallet.DataBits, but with a non-empty dictionary where the layout has one (installed plugins of
+// v4, extensions of v5, pending queries of the highload wallet) and a non-zero last_cleaned time.
+//
+//	v4       : ... plugins:(HashmapE 264 <empty>)          key = wc:int8 addr:bits256
+//	v5 beta  : ... extensions:(HashmapE 256 int8)          value = workchain of the extension
+//	v5r1     : ... extensions:(HashmapE 256 int1)          value = -1
+//	highload : subwallet_id last_cleaned:uint64 public_key old_queries:(HashmapE 64 <anything>)
+func richDataCell(rp rwallet.Params, seqno uint32, r *mon.Rng) (*cell.Cell, string, error) {
+	b, err := rwallet.DataBits(rp, seqno)
+	if err != nil {
+		return nil, "", err
+	}
+	keyBits := 0
+	var val func() []bool
+	what := ""
+	switch rp.Ver {
+	case rwallet.V4R1, rwallet.V4R2:
+		keyBits, val, what = 264, func() []bool { return nil }, "plugins"
+	case rwallet.V5Beta:
+		keyBits, val, what = 256, func() []bool { return rbits.IntBits(int64(-r.Intn(2)), 8) }, "extensions"
+	case rwallet.V5R1:
+		keyBits, val, what = 256, func() []bool { return []bool{true} }, "extensions"
+	case rwallet.HighloadV2R2:
+		keyBits, val, what = 64, func() []bool { return r.Bits(mon.Pick(r, []int{0, 0, 1, 32})) }, "old-queries+last-cleaned"
+	default:
+		return cell.New(b, false), "layout-without-dictionary", nil
+	}
+	if len(b) == 0 || b[len(b)-1] {
+		return nil, "", fmt.Errorf("reference layout of %v does not end with an empty dictionary", rp.Ver)
+	}
+	b = append([]bool(nil), b[:len(b)-1]...)
+	if rp.Ver == rwallet.HighloadV2R2 {
+		copy(b[32:96], rbits.UintBits(r.Uint64()|1, 64))
+	}
+	n := r.Range(1, 4)
+	seen := map[string]bool{}
+	var es []rdict.Entry
+	for len(es) < n {
+		k := r.Bits(keyBits)
+		if ks := rdict.KeyString(k); !seen[ks] {
+			seen[ks] = true
+			es = append(es, rdict.Entry{Key: k, Val: rdict.Value{Bits: val()}})
+		}
+	}
+	v, err := (&rdict.Builder{N: keyBits}).HashmapE(es)
+	if err != nil {
+		return nil, "", err
+	}
+	return cell.New(append(b, v.Bits...), false, v.Refs...), what, nil
+}
+
+// accountState builds what the chain reports for the wallet. rich != nil: the data of a wallet in
+// use (see richDataCell) instead of the minimal layout.
+func accountState(kind string, s verSpec, rp rwallet.Params, addr ton.AccountID, seqno uint32, rich *mon.Rng) (tlb.ShardAccount, error) {
 	var sa tlb.ShardAccount
 	if kind == "none" {
 		sa.Account.SumType = "AccountNone"
@@ -412,7 +525,16 @@ func accountState(kind string, s verSpec, rp rwallet.Params, addr ton.AccountID,
 		st.AccountFrozen.StateHash = addr.Address
 	case "active":
 		st.SumType = "AccountActive"
-		data, err := rwallet.DataCell(rp, seqno)
+		var data *cell.Cell
+		var err error
+		if rich != nil {
+			var what string
+			if data, what, err = richDataCell(rp, seqno, rich); err == nil {
+				R.Seen("on_chain_data_forms", s.name+": "+what)
+			}
+		} else {
+			data, err = rwallet.DataCell(rp, seqno)
+		}
 		if err != nil {
 			return sa, err
 		}
@@ -437,12 +559,16 @@ type sendCase struct {
 	wc    int
 	sub   *uint32
 	net   *int32
+	kind  string // "" one send | "reuse" several sends on one Wallet | "state-error" the state query fails
 	state string
 	k     uint32
+	rich  bool // active account whose data holds non-empty dictionaries
 	raw   bool // confirmation through RawSendV2 instead of SendV2
 	// confirmation script
-	script    string // "" | advance | never | errors-then-advance | always-error
+	script    string // "" | advance | jump | never | lagging-never | lagging-then-advance | errors-then-advance | always-error | timed-advance | timed-late-advance
 	advanceAt int
+	delta     uint32  // jump: how far the seqno is ahead when it has advanced
+	advFrac   float64 // timed-*: the chain advances advFrac * waiting time after the message was sent
 	waitMs    int
 }
 
@@ -454,13 +580,36 @@ func (c *sendCase) wit() map[string]any {
 	if c.net != nil {
 		w["network"] = *c.net
 	}
+	if c.kind != "" {
+		w["kind"] = c.kind
+	}
+	if c.rich {
+		w["on_chain_data"] = "with non-empty dictionaries"
+	}
 	if c.script != "" {
 		w["script"], w["advance_at_poll"], w["wait_ms"] = c.script, c.advanceAt, c.waitMs
+		if c.delta != 0 {
+			w["seqno_ahead_by"] = c.delta
+		}
+		if c.advFrac != 0 {
+			w["chain_advances_after_ms"] = int(c.advFrac * float64(c.waitMs))
+		}
 	}
 	return w
 }
 
+// scheduling lateness of this process, sampled all the time the sends run
 var maxLateMs atomic.Int64
+
+type lateEvt struct {
+	at   time.Time
+	late time.Duration
+}
+
+var (
+	lateMu  sync.Mutex
+	lateLog []lateEvt // every sample that woke up >= 2 ms late
+)
 
 func latenessProbe(stop <-chan struct{}) {
 	for {
@@ -471,7 +620,13 @@ func latenessProbe(stop <-chan struct{}) {
 		}
 		t := time.Now()
 		time.Sleep(5 * time.Millisecond)
-		late := time.Since(t).Milliseconds() - 5
+		d := time.Since(t) - 5*time.Millisecond
+		if d >= 2*time.Millisecond {
+			lateMu.Lock()
+			lateLog = append(lateLog, lateEvt{time.Now(), d})
+			lateMu.Unlock()
+		}
+		late := d.Milliseconds()
 		for {
 			cur := maxLateMs.Load()
 			if late <= cur || maxLateMs.CompareAndSwap(cur, late) {
@@ -481,87 +636,395 @@ func latenessProbe(stop <-chan struct{}) {
 	}
 }
 
-func runSend(c *sendCase) {
-	w := c.wit()
-	s := c.spec
+// worstLateBetween: the worst lateness the probe saw between two instants (with a margin).
+func worstLateBetween(a, b time.Time) time.Duration {
+	a, b = a.Add(-20*time.Millisecond), b.Add(20*time.Millisecond)
+	var worst time.Duration
+	lateMu.Lock()
+	for _, e := range lateLog {
+		if e.at.After(a) && e.at.Add(-e.late).Before(b) && e.late > worst {
+			worst = e.late
+		}
+	}
+	lateMu.Unlock()
+	return worst
+}
+
+type sendEnv struct {
+	c        *sendCase
+	s        verSpec
+	pub      ed25519.PublicKey
+	rp       rwallet.Params
+	ch       *chain
+	wal      twallet.Wallet
+	addr     ton.AccountID
+	wantAddr cell.Hash
+	dw       int8
+	dest     [32]byte
+	transfer twallet.SimpleTransfer
+}
+
+func newEnv(c *sendCase, w map[string]any) *sendEnv {
+	e := &sendEnv{c: c, s: c.spec}
 	priv := ed25519.NewKeyFromSeed(c.seed)
-	pub := priv.Public().(ed25519.PublicKey)
-	rp := rwallet.Params{Ver: s.r, Workchain: int32(c.wc), SubWallet: c.sub, NetworkID: c.net}
-	copy(rp.PubKey[:], pub)
-	opts := []twallet.Option{twallet.WithWorkchain(c.wc)}
-	if c.sub != nil {
-		opts = append(opts, twallet.WithSubWalletID(*c.sub))
-	}
-	if c.net != nil {
-		opts = append(opts, twallet.WithNetworkGlobalID(*c.net))
-	}
-	ch := &chain{}
-	wal, err := twallet.New(priv, s.t, ch, opts...)
-	if err != nil {
+	e.pub = priv.Public().(ed25519.PublicKey)
+	e.rp = rwallet.Params{Ver: e.s.r, Workchain: int32(c.wc), SubWallet: c.sub, NetworkID: c.net}
+	copy(e.rp.PubKey[:], e.pub)
+	opts, optForm := buildOpts(c.wc, c.sub, c.net, c.idx%4, R.Rng("send-opts", c.idx))
+	w["option_form"] = optForm
+	e.ch = &chain{}
+	var err error
+	if e.wal, err = twallet.New(priv, e.s.t, e.ch, opts...); err != nil {
 		w["err"] = err.Error()
-		R.Violation("error@wallet.New/"+s.name, w)
-		return
+		R.Violation("error@wallet.New/"+e.s.name, w)
+		return nil
 	}
-	addr := wal.GetAddress()
-	wantAddr, err := rwallet.Address(rp)
-	if err != nil {
+	e.addr = e.wal.GetAddress()
+	if e.wantAddr, err = rwallet.Address(e.rp); err != nil {
 		R.HarnessError("reference address: %v", err)
-		return
+		return nil
 	}
-	if ch.state, err = accountState(c.state, s, rp, addr, c.k); err != nil {
+	e.dw, e.dest = randDest(R.Rng("dest", c.idx))
+	e.transfer = twallet.SimpleTransfer{Amount: 12345, Address: ton.AccountID{Workchain: int32(e.dw), Address: e.dest}, Comment: "c15"}
+	return e
+}
+
+// judgeSent decides what was handed to SendMessage against the account state the chain reported
+// (state, stored) at that moment. tag names the situation in the signatures ("" = a single send).
+func (e *sendEnv) judgeSent(w map[string]any, payload []byte, state string, stored uint32, raw bool, tag string) (*rwallet.ExtIn, *rwallet.Request, bool) {
+	c, s := e.c, e.s
+	w["payload"] = mon.HexTrunc(payload, 2000)
+	roots, _, _, rerr := rboc.Read(payload)
+	if rerr != nil || len(roots) != 1 {
+		w["err"] = fmt.Sprint(rerr)
+		R.Violation("invalid-boc@payload/"+s.name, w)
+		return nil, nil, false
+	}
+	ext, rerr := rwallet.ParseExtIn(roots[0])
+	if rerr != nil {
+		w["err"] = rerr.Error()
+		R.Violation("not-an-external-message@payload/"+s.name, w)
+		return nil, nil, false
+	}
+	if int(ext.DestWC) != c.wc || ext.Dest != e.wantAddr || e.addr.Address != tlb.Bits256(e.wantAddr) {
+		w["dest"] = fmt.Sprintf("%d:%x", ext.DestWC, ext.Dest)
+		w["want"] = fmt.Sprintf("%d:%x", c.wc, e.wantAddr)
+		R.Violation("destination-is-not-the-wallet/"+s.name+tag, w)
+		return nil, nil, false
+	}
+	if ext.ImportFee.Sign() != 0 {
+		R.Seen("observed", "external message with a non-zero import fee (not asserted: the statement is silent)")
+	}
+	req, derr := rwallet.Decode(s.r, ext.Body)
+	if derr != nil {
+		w["err"] = derr.Error()
+		R.Violation("undecodable-body@reference/"+s.name, w)
+		return nil, nil, false
+	}
+	if !rwallet.Verify(s.r, ext.Body, e.pub) {
+		R.Violation("bad-signature@reference-verifier/"+s.name, w)
+		return nil, nil, false
+	}
+	if raw {
+		return ext, req, true
+	}
+	if rwallet.HasSeqno(s.r) && req.Seqno != stored && state != "frozen" {
+		w["body_seqno"], w["want"] = req.Seqno, stored
+		R.Violation(fmt.Sprintf("seqno-mismatch@%s/%s%s", state, s.name, tag), w)
+		return nil, nil, false
+	}
+	switch state {
+	case "none", "uninit":
+		if ext.Init == nil {
+			R.Violation("init-missing@"+state+"/"+s.name+tag, w)
+			return nil, nil, false
+		}
+		if ext.Init.Cell().Hash() != e.wantAddr {
+			w["init_hash"] = mon.Hex(hs(ext.Init.Cell().Hash()))
+			R.Violation("init-does-not-hash-to-address@"+state+"/"+s.name+tag, w)
+			return nil, nil, false
+		}
+	case "active":
+		if ext.Init != nil {
+			R.Violation("init-attached@active/"+s.name+tag, w)
+			return nil, nil, false
+		}
+	case "frozen":
+		R.Seen("observed", fmt.Sprintf("frozen account: init attached=%v (not asserted)", ext.Init != nil))
+	}
+	// what the body carries is C14's subject; here only a coverage fact
+	carried := false
+	if len(req.Msgs) == 1 {
+		if im, ierr := rwallet.ParseInt(req.Msgs[0].Msg); ierr == nil && im.DestWC == e.dw && im.Dest == e.dest && im.Amount.Uint64() == 12345 {
+			carried = true
+		}
+	}
+	if carried {
+		R.Count("payloads_carrying_the_requested_transfer", 1)
+	} else {
+		R.Count("payloads_not_carrying_the_requested_transfer(not judged here: C14)", 1)
+	}
+	return ext, req, true
+}
+
+// storedSeqno: what the data of the scripted account holds for the version (0 when there is none).
+func storedSeqno(s verSpec, state string, k uint32) uint32 {
+	if state == "active" && rwallet.HasSeqno(s.r) {
+		return k
+	}
+	return 0
+}
+
+func (e *sendEnv) sendPlain(w map[string]any, what string) (error, bool) {
+	var sendErr error
+	p := mon.Guard(func() { _, sendErr = e.wal.SendV2(context.Background(), 0, e.transfer) })
+	if p != nil {
+		w["panic"], w["stack"] = p.Value, mon.Trunc(p.Stack, 1200)
+		R.Violation("panic@"+p.Site+"/SendV2/"+e.s.name+"/"+what, w)
+		return nil, false
+	}
+	return sendErr, true
+}
+
+func (e *sendEnv) checkStateQueries(w map[string]any) bool {
+	e.ch.mu.Lock()
+	q := append([]ton.AccountID(nil), e.ch.stateQ...)
+	e.ch.mu.Unlock()
+	for _, a := range q {
+		if a != e.addr {
+			w["state_queries"] = fmt.Sprint(q)
+			R.Violation("account-state-asked-for-another-account/"+e.s.name, w)
+			return false
+		}
+	}
+	return true
+}
+
+// runReuse: several sends through ONE Wallet value while the account changes between them. Every
+// message must follow from the state the chain reports at the moment of that send.
+func runReuse(e *sendEnv, w map[string]any) {
+	c, s := e.c, e.s
+	rng := R.Rng("reuse", c.idx)
+	type step struct {
+		state string
+		k     uint32
+	}
+	var steps []step
+	for len(steps) < 3 {
+		st := step{state: mon.Pick(rng, []string{"none", "uninit", "active", "active", "active"})}
+		if st.state == "active" {
+			st.k = mon.Pick(rng, []uint32{0, 1, 3, 7, 8, 1<<32 - 1, uint32(rng.Uint64())})
+		}
+		if n := len(steps); n > 0 && steps[n-1] == st {
+			continue
+		}
+		steps = append(steps, st)
+	}
+	w["account_history"] = fmt.Sprintf("%+v", steps)
+	for i, st := range steps {
+		sa, err := accountState(st.state, s, e.rp, e.addr, st.k, nil)
+		if err != nil {
+			R.HarnessError("account state: %v", err)
+			return
+		}
+		e.ch.setState(sa, nil)
+		e.ch.mu.Lock()
+		before := len(e.ch.sent)
+		e.ch.mu.Unlock()
+		sw := witnessCopy(w)
+		sw["send_number"], sw["account_state"], sw["stored_seqno"] = i+1, st.state, st.k
+		sendErr, ok := e.sendPlain(sw, "reused-wallet")
+		if !ok {
+			return
+		}
+		e.ch.mu.Lock()
+		sent := e.ch.sent[before:]
+		e.ch.mu.Unlock()
+		R.Eval(fmt.Sprintf("reuse/%s/%d/%s/k=%d/wc=%d", s.name, i+1, st.state, st.k, c.wc))
+		R.Count("sends", 1)
+		R.Count("sends_on_a_reused_wallet", 1)
+		if sendErr != nil || len(sent) != 1 {
+			sw["err"], sw["captured"] = fmt.Sprint(sendErr), len(sent)
+			R.Violation(fmt.Sprintf("error@send-without-confirmation/%s/reused-wallet(send %d)", s.name, i+1), sw)
+			return
+		}
+		tag := ""
+		if i > 0 {
+			tag = fmt.Sprintf("/reused-wallet(send %d)", i+1)
+		}
+		if _, _, ok := e.judgeSent(sw, sent[0], st.state, storedSeqno(s, st.state, st.k), false, tag); !ok {
+			return
+		}
+		R.Seen("reuse_transitions", fmt.Sprintf("%s: send %d with the account %s", s.name, i+1, st.state))
+	}
+	e.checkStateQueries(w)
+}
+
+// runStateError: the state query fails. Whatever the wallet does then, a message it sends must not
+// contradict the real state of the account (scripted: it is what the next, successful query reports).
+func runStateError(e *sendEnv, w map[string]any) {
+	c, s := e.c, e.s
+	sa, err := accountState(c.state, s, e.rp, e.addr, c.k, nil)
+	if err != nil {
 		R.HarnessError("account state: %v", err)
 		return
 	}
-	hasSeq := rwallet.HasSeqno(s.r)
-	stored := uint32(0)
-	if c.state == "active" && hasSeq {
-		stored = c.k
+	stored := storedSeqno(s, c.state, c.k)
+	e.ch.setState(sa, errors.New("scripted: lite server unavailable"))
+	sendErr, ok := e.sendPlain(w, "state-query-fails")
+	if !ok {
+		return
 	}
+	e.ch.mu.Lock()
+	sent := append([][]byte(nil), e.ch.sent...)
+	e.ch.mu.Unlock()
+	R.Eval(fmt.Sprintf("state-error/%s/%s/k=%d/wc=%d", s.name, c.state, c.k, c.wc))
+	R.Count("sends", 1)
+	R.Count("sends_with_a_failing_state_query", 1)
+	w["result"] = fmt.Sprint(sendErr)
+	switch {
+	case len(sent) == 0 && sendErr != nil:
+		R.Seen("observed", "state query fails: nothing sent, error returned")
+	case len(sent) == 0:
+		R.Seen("observed", "state query fails: nothing sent, no error (not asserted)")
+	default:
+		for _, p := range sent {
+			if _, _, ok := e.judgeSent(witnessCopy(w), p, c.state, stored, false, "/account-state-unavailable"); !ok {
+				return
+			}
+		}
+	}
+	// the node answers again
+	e.ch.setState(sa, nil)
+	before := len(sent)
+	sendErr, ok = e.sendPlain(w, "after-failed-state-query")
+	if !ok {
+		return
+	}
+	e.ch.mu.Lock()
+	sent = append([][]byte(nil), e.ch.sent[before:]...)
+	e.ch.mu.Unlock()
+	R.Eval("")
+	R.Count("sends", 1)
+	if sendErr != nil || len(sent) != 1 {
+		w["err"], w["captured"] = fmt.Sprint(sendErr), len(sent)
+		R.Violation("error@send-without-confirmation/"+s.name+"/after-failed-state-query", w)
+		return
+	}
+	e.judgeSent(w, sent[0], c.state, stored, false, "/after-failed-state-query")
+}
+
+func witnessCopy(w map[string]any) map[string]any {
+	o := make(map[string]any, len(w)+4)
+	for k, v := range w {
+		o[k] = v
+	}
+	return o
+}
+
+// runSend runs one case. It returns true when a timing-dependent verdict could not be taken
+// because the machine was late and the case should be run again (last = no further attempt).
+func runSend(c *sendCase, last bool) (retry bool) {
+	w := c.wit()
+	s := c.spec
+	e := newEnv(c, w)
+	if e == nil {
+		return
+	}
+	switch c.kind {
+	case "reuse":
+		runReuse(e, w)
+		return
+	case "state-error":
+		runStateError(e, w)
+		return
+	}
+	ch, wal, addr := e.ch, e.wal, e.addr
+	var richRng *mon.Rng
+	if c.rich {
+		richRng = R.Rng("rich", c.idx)
+	}
+	sa, err := accountState(c.state, s, e.rp, addr, c.k, richRng)
+	if err != nil {
+		R.HarnessError("account state: %v", err)
+		return
+	}
+	ch.setState(sa, nil)
+	stored := storedSeqno(s, c.state, c.k)
 	wait := time.Duration(c.waitMs) * time.Millisecond
+	advAfter := time.Duration(c.advFrac * float64(wait))
+	unavailable := fmt.Errorf("scripted: lite server unavailable")
 	switch c.script {
 	case "advance":
-		ch.script = func(n int) (uint32, error) {
+		ch.script = func(n int, _ time.Duration) (uint32, error) {
 			if n >= c.advanceAt {
 				return stored + 1, nil
 			}
 			return stored, nil
 		}
+	case "jump": // several messages of the wallet were processed in between
+		ch.script = func(n int, _ time.Duration) (uint32, error) {
+			if n >= c.advanceAt {
+				return stored + c.delta, nil
+			}
+			return stored, nil
+		}
 	case "never":
-		ch.script = func(n int) (uint32, error) { return stored, nil }
+		ch.script = func(int, time.Duration) (uint32, error) { return stored, nil }
+	case "lagging-never": // a node that is behind: it still reports the seqno before the last processed message
+		ch.script = func(n int, _ time.Duration) (uint32, error) {
+			if n%3 == 0 {
+				return stored, nil
+			}
+			return stored - 1, nil
+		}
+	case "lagging-then-advance":
+		ch.script = func(n int, _ time.Duration) (uint32, error) {
+			if n >= c.advanceAt {
+				return stored + 1, nil
+			}
+			return stored - 1, nil
+		}
 	case "errors-then-advance":
-		ch.script = func(n int) (uint32, error) {
+		ch.script = func(n int, _ time.Duration) (uint32, error) {
 			if n < c.advanceAt {
-				return 0, fmt.Errorf("scripted: lite server unavailable")
+				return 0, unavailable
 			}
 			return stored + 1, nil
 		}
 	case "always-error":
-		ch.script = func(n int) (uint32, error) { return 0, fmt.Errorf("scripted: lite server unavailable") }
+		ch.script = func(int, time.Duration) (uint32, error) { return 0, unavailable }
+	case "timed-advance", "timed-late-advance": // the chain moves on at an instant of its own, whoever asks
+		ch.script = func(_ int, since time.Duration) (uint32, error) {
+			if since >= advAfter {
+				return stored + 1, nil
+			}
+			return stored, nil
+		}
 	}
 
-	dw, dest := randDest(R.Rng("dest", c.idx))
-	transfer := twallet.SimpleTransfer{Amount: 12345, Address: ton.AccountID{Workchain: int32(dw), Address: dest}, Comment: "c15"}
 	var sendErr error
 	ch.t0 = time.Now()
 	start := time.Now()
 	p := mon.Guard(func() {
 		if c.raw {
-			im, mode, e := transfer.ToInternal()
-			if e != nil {
-				sendErr = e
+			im, mode, terr := e.transfer.ToInternal()
+			if terr != nil {
+				sendErr = terr
 				return
 			}
 			mc := tboc.NewCell()
-			if e := tlb.Marshal(mc, im); e != nil {
-				sendErr = e
+			if merr := tlb.Marshal(mc, im); merr != nil {
+				sendErr = merr
 				return
 			}
 			_, sendErr = wal.RawSendV2(context.Background(), stored, time.Now().Add(time.Minute), []twallet.RawMessage{{Message: mc, Mode: mode}}, nil, wait)
 			return
 		}
-		_, sendErr = wal.SendV2(context.Background(), wait, transfer)
+		_, sendErr = wal.SendV2(context.Background(), wait, e.transfer)
 	})
-	elapsed := time.Since(start)
+	end := time.Now()
+	elapsed := end.Sub(start)
 	if p != nil {
 		w["panic"], w["stack"] = p.Value, mon.Trunc(p.Stack, 1200)
 		R.Violation("panic@"+p.Site+"/SendV2/"+s.name+"/"+c.state, w)
@@ -570,97 +1033,38 @@ func runSend(c *sendCase) {
 	ch.mu.Lock()
 	sent := ch.sent
 	polls := append([]poll(nil), ch.polls...)
-	stateQ := ch.stateQ
 	ch.mu.Unlock()
 	w["polls"] = polls
 	w["elapsed_ms"] = elapsed.Milliseconds()
 	w["result"] = fmt.Sprint(sendErr)
 
-	fp := fmt.Sprintf("send/%s/%s/k=%d/raw=%v/%s@%d/wc=%d", s.name, c.state, c.k, c.raw, c.script, c.advanceAt, c.wc)
+	fp := fmt.Sprintf("send/%s/%s/k=%d/rich=%v/raw=%v/%s@%d/wc=%d", s.name, c.state, c.k, c.rich, c.raw, c.script, c.advanceAt, c.wc)
 	R.Eval(fp)
 	R.Seen("send_classes", fmt.Sprintf("%s/%s", s.name, c.state))
 	R.Count("sends", 1)
 
 	// --- what was sent ---
+	if len(sent) == 0 && sendErr != nil && (c.state == "none" || c.state == "uninit" || c.state == "active") {
+		// a well-formed account state for which the statement says what is sent: nothing was
+		w["err"] = sendErr.Error()
+		form := ""
+		if c.rich {
+			form = "/data-with-dictionaries"
+		}
+		R.Violation("nothing-sent@"+c.state+"/"+s.name+form, w)
+		return
+	}
 	if len(sent) != 1 {
 		w["captured"] = len(sent)
 		R.Violation("payload-count@"+c.state+"/"+s.name, w)
 		return
 	}
-	if !c.raw && (len(stateQ) != 1 || stateQ[0] != addr) {
-		w["state_queries"] = fmt.Sprint(stateQ)
-		R.Violation("account-state-asked-for-another-account/"+s.name, w)
+	if !e.checkStateQueries(w) {
 		return
 	}
-	w["payload"] = mon.HexTrunc(sent[0], 2000)
-	roots, _, _, rerr := rboc.Read(sent[0])
-	if rerr != nil || len(roots) != 1 {
-		w["err"] = fmt.Sprint(rerr)
-		R.Violation("invalid-boc@payload/"+s.name, w)
+	ext, req, ok := e.judgeSent(w, sent[0], c.state, stored, c.raw, "")
+	if !ok {
 		return
-	}
-	ext, rerr := rwallet.ParseExtIn(roots[0])
-	if rerr != nil {
-		w["err"] = rerr.Error()
-		R.Violation("not-an-external-message@payload/"+s.name, w)
-		return
-	}
-	if int(ext.DestWC) != c.wc || ext.Dest != wantAddr || addr.Address != tlb.Bits256(wantAddr) {
-		w["dest"] = fmt.Sprintf("%d:%x", ext.DestWC, ext.Dest)
-		w["want"] = fmt.Sprintf("%d:%x", c.wc, wantAddr)
-		R.Violation("destination-is-not-the-wallet/"+s.name, w)
-		return
-	}
-	if ext.ImportFee.Sign() != 0 {
-		R.Violation("import-fee-set/"+s.name, w)
-		return
-	}
-	req, derr := rwallet.Decode(s.r, ext.Body)
-	if derr != nil {
-		w["err"] = derr.Error()
-		R.Violation("undecodable-body@reference/"+s.name, w)
-		return
-	}
-	if !rwallet.Verify(s.r, ext.Body, pub) {
-		R.Violation("bad-signature@reference-verifier/"+s.name, w)
-		return
-	}
-	if !c.raw {
-		if hasSeq && req.Seqno != stored && c.state != "frozen" {
-			w["body_seqno"], w["want"] = req.Seqno, stored
-			R.Violation(fmt.Sprintf("seqno-mismatch@%s/%s", c.state, s.name), w)
-			return
-		}
-		switch c.state {
-		case "none", "uninit":
-			if ext.Init == nil {
-				R.Violation("init-missing@"+c.state+"/"+s.name, w)
-				return
-			}
-			if ext.Init.Cell().Hash() != wantAddr {
-				w["init_hash"] = mon.Hex(hs(ext.Init.Cell().Hash()))
-				R.Violation("init-does-not-hash-to-address@"+c.state+"/"+s.name, w)
-				return
-			}
-		case "active":
-			if ext.Init != nil {
-				R.Violation("init-attached@active/"+s.name, w)
-				return
-			}
-		case "frozen":
-			R.Seen("observed", fmt.Sprintf("frozen account: init attached=%v (not asserted)", ext.Init != nil))
-		}
-		if len(req.Msgs) != 1 || req.Msgs[0].Mode != 3 {
-			w["messages"] = len(req.Msgs)
-			R.Violation("transfer-missing/"+s.name, w)
-			return
-		}
-		im, ierr := rwallet.ParseInt(req.Msgs[0].Msg)
-		if ierr != nil || im.DestWC != dw || im.Dest != dest || im.Amount.Uint64() != 12345 {
-			w["err"] = fmt.Sprint(ierr)
-			R.Violation("transfer-differs/"+s.name, w)
-			return
-		}
 	}
 
 	if (c.script == "" && sendSampleN.Add(1)%150 == 1) || (c.script != "" && confSampleN.Add(1)%100 == 1) {
@@ -697,13 +1101,18 @@ func runSend(c *sendCase) {
 		}
 	}
 	switch c.script {
-	case "advance", "errors-then-advance":
+	case "advance", "jump", "lagging-then-advance", "errors-then-advance":
 		if sawAdvance {
 			// the wallet was told, with a nil error, that the seqno is past the one it used
 			if sendErr != nil {
 				w["err"] = sendErr.Error()
 				R.Violation("confirmation-missed@"+c.script, w)
 			}
+			return
+		}
+		// no poll was answered with a seqno past the one used: in this history the seqno never advanced
+		if sendErr == nil {
+			R.Violation("confirmed-without-advance@"+c.script, w)
 			return
 		}
 		// it never got as far as poll advanceAt
@@ -713,7 +1122,7 @@ func runSend(c *sendCase) {
 		}
 		// the scripted advance never happened in this run's history (poll cadence is not part of the statement)
 		R.Count("advance_poll_not_reached", 1)
-	case "never", "always-error":
+	case "never", "always-error", "lagging-never":
 		if sendErr == nil {
 			R.Violation("confirmed-without-advance@"+c.script, w)
 			return
@@ -729,7 +1138,45 @@ func runSend(c *sendCase) {
 			}
 			R.Inconclusive("confirmation: timeout reported later than waiting time + slack")
 		}
+	case "timed-advance", "timed-late-advance":
+		// The chain advanced advAfter after the message was sent: at most half of the waiting time
+		// (timed-advance), or at 82-85 % of it (timed-late-advance) - in both cases before the deadline.
+		w["chain_advanced_after_ms"] = float64(advAfter.Microseconds()) / 1000
+		if sawAdvance {
+			if sendErr != nil {
+				w["err"] = sendErr.Error()
+				R.Violation("confirmation-missed@"+c.script, w)
+			}
+			return
+		}
+		if sendErr == nil {
+			if elapsed < advAfter {
+				R.Violation("confirmed-without-advance@"+c.script, w)
+			}
+			return
+		}
+		// an error although the seqno had advanced before the deadline, and nobody looked after it had
+		worst := worstLateBetween(start, end)
+		w["worst_scheduling_lateness_ms"] = float64(worst.Microseconds()) / 1000
+		// how much lateness a correct wallet could be excused by: it had waiting time - advAfter left
+		gate := wait / 10
+		if c.script == "timed-late-advance" {
+			gate = 4 * time.Millisecond
+		}
+		if worst > gate || elapsed > wait+slack {
+			if !last {
+				return true
+			}
+			if c.script == "timed-late-advance" {
+				R.Count("late_advance_not_judged(machine jitter)", 1)
+			} else {
+				R.Inconclusive("confirmation: machine too late to judge a timeout after an advance inside the window")
+			}
+			return
+		}
+		R.Violation("timeout-although-advanced-before-deadline@"+c.script, w)
 	}
+	return
 }
 
 func hs(h cell.Hash) []byte { return h[:] }
@@ -746,7 +1193,18 @@ func sectionSends() {
 	states := []struct {
 		kind string
 		k    uint32
-	}{{"none", 0}, {"uninit", 0}, {"active", 0}, {"active", 1}, {"active", 7}, {"active", 1<<32 - 1}, {"active", 0}, {"frozen", 0}}
+		rich bool
+	}{{"none", 0, false}, {"uninit", 0, false}, {"active", 0, false}, {"active", 1, false}, {"active", 7, false}, {"active", 1<<32 - 1, false}, {"active", 0, false}, {"frozen", 0, false},
+		{"active", 0, true}, {"active", 5, true}}
+	pickOpts := func(rng *mon.Rng, c *sendCase) {
+		c.wc = mon.Pick(rng, []int{0, 0, -1, 1, 127})
+		if rng.Bool() && c.spec.r != rwallet.V5R1 {
+			c.sub = optPtrU32(uint32(rng.Uint64()))
+		}
+		if rng.Bool() {
+			c.net = optPtrI32(mon.Pick(rng, []int32{-239, -3, 0, 1}))
+		}
+	}
 	rounds := R.N(5, 40)
 	for round := 0; round < rounds; round++ {
 		for _, s := range specs {
@@ -754,19 +1212,36 @@ func sectionSends() {
 				continue
 			}
 			for si, st := range states {
+				if st.rich && !(rwallet.HasNetworkID(s.r) || s.r == rwallet.V4R1 || s.r == rwallet.V4R2 || s.r == rwallet.HighloadV2R2) {
+					continue // the layout has no dictionary
+				}
 				rng := R.Rng("send", idx)
-				c := &sendCase{idx: idx, spec: s, seed: rng.Bytes(32), state: st.kind, k: st.k}
+				c := &sendCase{idx: idx, spec: s, seed: rng.Bytes(32), state: st.kind, k: st.k, rich: st.rich}
 				idx++
-				if si == 6 {
+				if si == 6 || si == 9 {
 					c.k = uint32(rng.Uint64())
 				}
-				c.wc = mon.Pick(rng, []int{0, 0, -1, 1, 127})
-				if rng.Bool() && s.r != rwallet.V5R1 {
-					c.sub = optPtrU32(uint32(rng.Uint64()))
+				pickOpts(rng, c)
+				cases = append(cases, c)
+			}
+			// several sends on one Wallet value, the account changing in between
+			{
+				rng := R.Rng("send", idx)
+				c := &sendCase{idx: idx, spec: s, seed: rng.Bytes(32), kind: "reuse", state: "(history)"}
+				idx++
+				pickOpts(rng, c)
+				cases = append(cases, c)
+			}
+			// the account state cannot be fetched
+			{
+				rng := R.Rng("send", idx)
+				c := &sendCase{idx: idx, spec: s, seed: rng.Bytes(32), kind: "state-error"}
+				idx++
+				c.state = mon.Pick(rng, []string{"active", "active", "active", "uninit"})
+				if c.state == "active" {
+					c.k = mon.Pick(rng, []uint32{1, 7, 1<<32 - 1, uint32(rng.Uint64()) | 1})
 				}
-				if rng.Bool() {
-					c.net = optPtrI32(mon.Pick(rng, []int32{-239, -3, 0, 1}))
-				}
+				pickOpts(rng, c)
 				cases = append(cases, c)
 			}
 		}
@@ -784,20 +1259,41 @@ func sectionSends() {
 				at     int
 			}
 			var scripts []sc
-			for j := 1; j <= 5; j++ {
+			for _, j := range []int{1, 2, 3, 4, 5, 8, 9} {
 				scripts = append(scripts, sc{"advance", j})
 			}
-			scripts = append(scripts, sc{"never", 0}, sc{"never", 0}, sc{"errors-then-advance", 2}, sc{"errors-then-advance", 4}, sc{"always-error", 0})
+			scripts = append(scripts, sc{"never", 0}, sc{"never", 0}, sc{"errors-then-advance", 2}, sc{"errors-then-advance", 4}, sc{"always-error", 0},
+				sc{"jump", 1}, sc{"jump", 3}, sc{"lagging-never", 0}, sc{"lagging-then-advance", 3},
+				sc{"timed-advance", 0}, sc{"timed-advance", 0}, sc{"timed-late-advance", 0})
 			for _, x := range scripts {
 				rng := R.Rng("conf", idx)
 				c := &sendCase{idx: idx, spec: s, seed: rng.Bytes(32), script: x.script, advanceAt: x.at}
 				idx++
 				c.state = mon.Pick(rng, []string{"active", "active", "none", "uninit"})
-				if c.state == "active" {
-					c.k = mon.Pick(rng, []uint32{0, 1, 7, 1<<31 - 1, 1<<32 - 2, uint32(rng.Uint64() >> 33)})
+				c.waitMs = rng.Range(200, 500)
+				switch x.script {
+				case "jump":
+					c.delta = mon.Pick(rng, []uint32{2, 3, 1000, 1 << 31})
+					if c.state == "active" {
+						c.k = mon.Pick(rng, []uint32{0, 1, 7, 1<<31 - 1, uint32(rng.Uint64() >> 33)})
+					}
+				case "lagging-never", "lagging-then-advance":
+					c.state = "active"
+					c.k = mon.Pick(rng, []uint32{1, 2, 7, 1<<31 - 1, 1<<32 - 2, uint32(rng.Uint64()>>33) | 1})
+				default:
+					if c.state == "active" {
+						c.k = mon.Pick(rng, []uint32{0, 1, 7, 1<<31 - 1, 1<<32 - 2, uint32(rng.Uint64() >> 33)})
+					}
+				}
+				switch x.script {
+				case "timed-advance":
+					c.waitMs = rng.Range(400, 900)
+					c.advFrac = float64(rng.Range(15, 50)) / 100
+				case "timed-late-advance":
+					c.waitMs = rng.Range(800, 1000)
+					c.advFrac = float64(rng.Range(82, 85)) / 100
 				}
 				c.raw = rng.Chance(1, 3)
-				c.waitMs = rng.Range(200, 500)
 				c.wc = mon.Pick(rng, []int{0, -1})
 				cases = append(cases, c)
 			}
@@ -820,7 +1316,14 @@ func sectionSends() {
 			done := make(chan struct{})
 			go func() {
 				defer close(done)
-				if p := mon.Guard(func() { runSend(c) }); p != nil {
+				if p := mon.Guard(func() {
+					for attempt := 0; attempt < 3; attempt++ {
+						if !runSend(c, attempt == 2) {
+							break
+						}
+						R.Count("timing_cases_run_again(machine was late)", 1)
+					}
+				}); p != nil {
 					if p.Site == "?" {
 						R.HarnessError("harness panic in send case %d: %s\n%s", c.idx, p.Value, mon.Trunc(p.Stack, 800))
 					} else {
@@ -831,7 +1334,7 @@ func sectionSends() {
 			select {
 			case <-done:
 			case <-time.After(60 * time.Second):
-				// §2.6: a call still parked after 60 s with a <=500 ms waiting time
+				// §2.6: a call still parked after 60 s with a <=1 s waiting time
 				buf := make([]byte, 1<<16)
 				n := runtime.Stack(buf, true)
 				w := c.wit()
@@ -855,7 +1358,7 @@ func main() {
 		tier = os.Args[1]
 	}
 	R = mon.Start("C15", tier)
-	R.Rule = "addresses: every (version, key, workchain, sub-wallet, network) tuple is derived by the reference (published code parsed by the reference reader + data layout + StateInit + reference hash) and through New().GetAddress, GenerateWalletAddress, hash(GenerateStateInit), hash(Wallet.StateInit); a collision map over effective tuples; sends: SendV2/RawSendV2 against a scripted chain, payload decoded by the reference (destination, seqno, init, signature), confirmation judged on the recorded poll history; non-trivial = every compared address / send; distinct = distinct addresses and distinct (version, account state, seqno, script) classes"
+	R.Rule = "addresses: every (version, key, workchain, sub-wallet, network) tuple is derived by the reference (published code parsed by the reference reader + data layout + StateInit + reference hash) and through New().GetAddress, GenerateWalletAddress, hash(GenerateStateInit), hash(Wallet.StateInit); a collision map over effective tuples; the options are passed in four forms (canonical order, shuffled, workchain 0 by omission, every option twice), workchains include the boundaries of the 8-bit field and, for versions whose data does not hold the workchain, values beyond it; sends: SendV2/RawSendV2 against a scripted chain, payload decoded by the reference (destination, seqno, init, signature); account data of active accounts in the minimal layout and with non-empty plugin/extension/query dictionaries; several sends through one Wallet value while the account changes; a failing state query (whatever is sent must agree with the real account); confirmation judged on the recorded poll history: poll-count scripts (advance by 1 or by more at poll 1..5/8/9, never, a lagging node reporting a smaller seqno, errors) and wall-clock scripts (the chain advances at <=50 % resp. 82-85 % of the waiting time whoever asks; an error then is a violation unless the lateness probe saw the machine stall); non-trivial = every compared address / send; distinct = distinct addresses and distinct (version, account state, seqno, script) classes"
 	R.Assume("reference wallet model harness/ref/wallet validated at start-up against real address vectors, the v5 wallet-id examples and captured network messages")
 	R.Assume("V1/V2 wallets have no send implementation in the library (createSignedMsgBodyCell panics 'implement me'); send semantics are checked for V3R1..V5R1 and HighLoadV2R2, confirmation for the versions that have a seqno")
 	R.Assume("frozen accounts: what is attached is recorded, not asserted (the statement is silent)")
